@@ -196,8 +196,11 @@ TrFault ==
     /\ Cur.injected =>
           /\ Cur.isErr
           /\ Cur.poisoned /\ Cur.next = "Poisoned"
-          /\ ImageOldOrNew([res |-> Cur.reopen.res, contOk |-> Cur.reopen.contOk, st |-> Cur.reopen.st,
-                            op |-> Cur.op], TRUE)
+          \* (a reopen that fails carries no observation: decide before touching the other fields)
+          /\ IF Cur.reopen.res = "Ok"
+             THEN ImageOldOrNew([res |-> Cur.reopen.res, contOk |-> Cur.reopen.contOk, st |-> Cur.reopen.st,
+                                 op |-> Cur.op], TRUE)
+             ELSE FALSE
     /\ (~Cur.injected) => Cur.res = "Ok"
     /\ UNCHANGED <<vars, roots>> /\ Adv
 
